@@ -11,7 +11,8 @@ from . import model as M
 
 INTS = [0, 1, -1, 2, 3, 7, 12, 5, 6, 10, 2**31, -(2**31), 2**53, -(2**53), 2**63 - 1, -(2**63)]
 SMALL_INTS = [0, 1, -1, 2, 3, 4, 5, 6, 7, 10, 12]
-FLOATS = [0.0, -0.0, 0.5, 2.5, 1e-9, 1e300, 1.0, 3.0, -2.5]
+FLOATS = [0.0, -0.0, 0.5, 2.5, 1e-9, 1e300, 1.0, 3.0, -2.5,
+          0.1 + 0.2, 1.0000000000000002, 1 / 3, 123456789.12345678, 5e-324, 1.7976931348623157e308, -1e-320]  # need all 17 digits / extremes
 STRS = [
     "", "a", "A", "abc", "1", "01", "-3", "2.5", "1e3", " 7 ", "true", "TRUE", "False",
     "none", "null", "path", "\\path", "100%", "%d", "%s%s", "%(a)s", "<b>&\"'`", "é",
@@ -442,3 +443,29 @@ def clamp_ranges(x):
         for v in x.values():
             clamp_ranges(v)
     return x
+
+
+def alias_containers(doc):
+    """a copy of doc in which equal non-empty containers are ONE shared object (what YAML anchors / aliases, or a
+    caller building a document from shared pieces, produce): a DAG, never a cycle"""
+    from .lit import canon
+    from . import model as M
+    d = M.deep_copy(doc)
+    seen = {}
+
+    def walk(x):
+        it = x.items() if type(x) is dict else enumerate(x)
+        for k, v in list(it):
+            if type(v) in (dict, list) and v:
+                c = repr(canon(v))
+                if c in seen:
+                    x[k] = seen[c]
+                else:
+                    seen[c] = v
+                    walk(v)
+    walk(d)
+    return d
+
+
+SHARED_DOC = {"a": {"v": [1, "x"], "w": {"k": "q"}}, "b": {"v": [1, "x"], "w": {"k": "q"}}, "c": [{"k": "q"}, {"k": "q"}, [1, "x"]],
+              "d": {"v": [1, "x"]}, "rows": [[1, "2"], [1, "2"], [3]], "e": {"s": "7", "t": ["7", "true"]}, "f": {"s": "7", "t": ["7", "true"]}}
